@@ -110,10 +110,25 @@ func verifMapOrder(format string) {
 	var ref bytes.Buffer
 	err1 := Packager(format).Package(verifOrderInfo().Info, &ref)
 	vw1, _ := Decode(format, ref.Bytes())
-	v.PermuteMaps(true)
+	// Symbolically the second run explores every permuted order.  Natively
+	// PermuteMaps is a no-op and Go randomises the start of each map range, so
+	// the replay repeats the second run until an order differs (a 2-entry map
+	// swaps with probability 1/8 per run: 120 runs miss with p < 2e-7).
+	verifTries := 1
+	if !v.Symbolic() {
+		verifTries = 120
+	}
 	var got bytes.Buffer
-	err2 := Packager(format).Package(verifOrderInfo().Info, &got)
-	v.PermuteMaps(false)
+	var err2 error
+	for i := 0; i < verifTries; i++ {
+		got.Reset()
+		v.PermuteMaps(true)
+		err2 = Packager(format).Package(verifOrderInfo().Info, &got)
+		v.PermuteMaps(false)
+		if err2 != nil || !bytes.Equal(ref.Bytes(), got.Bytes()) {
+			break
+		}
+	}
 	vw2, _ := Decode(format, got.Bytes())
 	v.Reach("C07.order.ran")
 	v.Assert(err1 == nil && err2 == nil, format+"-packages")
